@@ -113,13 +113,23 @@ func TestVerif_C09_StatefulScope(t *testing.T) {
 		perms := rapid.SampledFrom([][]string{{"present"}, {"present", "message"}, {}, {"op", "token"}, {"admin"}}).Draw(t, "perms")
 		tok := &Stateful{Token: fmt.Sprintf("t%d", n), Group: tg, IncludeSubgroups: sub, Username: user, Permissions: perms, Expires: exp, NotBefore: nbf}
 		// a second token that must never interfere
-		other := now.Add(time.Hour)
-		if _, err := Update(&Stateful{Token: "decoy", Group: g, Permissions: []string{"op"}, Expires: &other}, ""); err != nil {
+		// (it has everything a token can have, is good for the very group that is asked about, and precedes the token in the file)
+		other := now.Add(30 * time.Minute)
+		past := now.Add(-time.Hour)
+		decoyUser, issuer := "decoyuser", "issuer"
+		if _, err := Update(&Stateful{Token: "decoy", Group: g, IncludeSubgroups: true, Username: &decoyUser, Permissions: []string{"op"}, Expires: &other, NotBefore: &past,
+			IssuedAt: &past, IssuedBy: &issuer}, ""); err != nil {
 			t.Fatalf("store decoy: %v", err)
 		}
 		if _, err := Update(tok, ""); err != nil {
 			t.Fatalf("store: %v", err)
 		}
+		// the server that checks the token is the one that stored it, or one started afterwards (reads the file)
+		restarted := rapid.Bool().Draw(t, "checkedByAFreshlyStartedServer")
+		if restarted {
+			SetStatefulFilename(fn)
+		}
+		c09sRec.ClassIf(restarted, "checked_after_a_restart")
 		scope := refCovers(tg, sub, g)
 		window := exp != nil && exp.After(now) && (nbf == nil || nbf.Before(now))
 		want := scope && window
